@@ -21,11 +21,13 @@ def trees_case(ctx, idx, rng):
     zeros = False
     pool = gen.OID_POOLS[int(rng.integers(0, len(gen.OID_POOLS)))]
     oid_id = 0 if pool is None else int(pool[0])
+    charged = bool(idx % 3 == 1)             # tree nodes with quantum numbers (several trees at the same start site with different root labels included)
+    same_start = int(rng.integers(0, L)) if rng.random() < 0.4 else None
     for _ in range(ntree):
-        ist = int(rng.integers(0, L))
+        ist = int(rng.integers(0, L)) if same_start is None else same_start
         pz = float(rng.choice([0.0, 0.0, 0.25, 0.6]))
         root, poly = gen.rand_tree(rng, L - ist, nops=int(rng.integers(1, 4)), pleaf=float(rng.choice([0.1, 0.3, 0.5])) if not long_ else 0.4,
-                                   maxch=int(rng.integers(1, 4)) if not long_ else 2, pzero=pz, pool=pool)
+                                   maxch=int(rng.integers(1, 4)) if not long_ else 2, pzero=pz, pool=pool, charges=charged, root_q=(0 if ist == 0 else None))
         zeros = zeros or pz > 0
         t = ptn.OpTree(root, ist)
         trees.append(t)
@@ -35,7 +37,7 @@ def trees_case(ctx, idx, rng):
             full = (oid_id,) * ist + w + (oid_id,) * (L - ist - len(w))
             ref[full] = ref.get(full, 0) + c
     ref = refs.poly_clean(ref)
-    ctx.case(('trees', f'L{min(L, 4)}', f'n{ntree}', 'zero-couplings' if zeros else 'nonzero-couplings', 'ids-default' if pool is None else f'ids{pool}') + tuple(sorted(set(shapes))), sample={'L': L, 'trees': [(t.istart, tree_dump(t.root)) for t in trees][:2]},
+    ctx.case(('trees', f'L{min(L, 4)}', f'n{ntree}', 'charged-nodes' if charged else 'uncharged', 'same-start' if same_start is not None else 'mixed-starts', 'zero-couplings' if zeros else 'nonzero-couplings', 'ids-default' if pool is None else f'ids{pool}') + tuple(sorted(set(shapes))), sample={'L': L, 'trees': [(t.istart, tree_dump(t.root)) for t in trees][:2]},
              info={'L': L, 'trees': [(t.istart, tree_dump(t.root)) for t in trees]})
     detail = ctx.cur_info
     dg = monitor.digest([(t.istart, tree_dump(t.root)) for t in trees])
